@@ -37,6 +37,8 @@ class Ctx:
 
     def violation(self, what, replay, key=None):
         """Record a violation; if it matches a known finding (by key substring), report it as such."""
+        if COV:         # anchor coverage pass: verdicts of the perturbed builds are not used (and must not stop the run early)
+            return
         for f in self.findings:
             if key and f.get("key") and f["key"] == key:
                 if f not in self.known:
@@ -72,6 +74,20 @@ def main():
         traceback.print_exc()
         log("CHECK-ERROR property=%s %s" % (pid, ex))
         sys.exit(2)
+    if not a.replay and ctx.tier == "thorough" and not ctx.violations and os.environ.get("VERIF_COV") != "1" and os.environ.get("VERIF_NOCOV") != "1":
+        # anchor coverage pass (DESIGN 2.7): the quick tier once more on coverage builds of the drivers, in its own work directory
+        try:
+            import subprocess, anchorcov
+            cw = os.path.join(ctx.outdir, "cov"); shutil.rmtree(cw, ignore_errors=True)
+            e = dict(os.environ); e.update({"VERIF_COV": "1", "VERIF_WORK": cw})
+            p = subprocess.run([sys.executable, os.path.abspath(__file__), pid, "--tier", "quick"], env=e, capture_output=True, text=True, timeout=3600)
+            rep = anchorcov.report(pid, os.path.join(cw, "build"))
+            rep["coverage_pass_exit_status"] = p.returncode
+            ctx.extra["anchor_coverage"] = rep
+            log("  [cov] anchors: %d of %d executable anchor lines executed by this check's drivers" % (rep["executed_anchor_lines"], rep["executable_anchor_lines"]))
+            shutil.rmtree(cw, ignore_errors=True)
+        except Exception as ex:
+            ctx.notes.append("anchor coverage pass failed: %s" % ex)
     wall = time.time() - ctx.t0
     if not a.replay:
         level = getattr(mod, "LEVEL", "model_checking")
